@@ -213,8 +213,16 @@ def snapshot_csys(c):
 
 
 def snapshot_tomo(t):
+    e = t._experiment
+
+    def objs(lst):
+        return [None if q is None else snapshot_qop(q) for q in lst]
+
     return {"type": type(t).__name__, "matA": np.array(t.calc_matA()), "vecB": np.array(t.calc_vecB()), "num_variables": int(t.num_variables), "para": bool(t.on_para_eq_constraint),
-            "schedules": [[list(it) for it in s] for s in t._experiment.schedules]}
+            "schedules": [[list(it) for it in s] for s in e.schedules],
+            # the operations the experiment holds (the unknown's slot is None): part of what the tomography object *is*
+            "experiment": {"states": objs(e.states), "povms": objs(e.povms), "gates": objs(e.gates), "mprocesses": objs(e.mprocesses)},
+            "template": snapshot_qop(t._template_qoperation)}
 
 
 def snapshot_dataset(ds):
